@@ -248,6 +248,40 @@ def single_added_member(doc, rng):
     return d, "add member %s at /%s" % (name, "/".join(str(x) for x in q))
 
 
+WALK_WORDS = ["default", "200", "404", "items", "example", "examples", "properties", "schema", "headers", "allOf", "additionalProperties"]
+
+
+def collide_names(doc, rng):
+    """a body parameter named after a response of its own operation (or after a word the default / example walkers
+    append to their paths), both carrying schemas with defaults and examples: the walkers' visited-path bookkeeping
+    must keep them apart"""
+    d = copy.deepcopy(doc)
+    ops = [op for item in d.get("paths", {}).values() if isinstance(item, dict)
+           for op in item.values() if isinstance(op, dict) and isinstance(op.get("responses"), dict) and op["responses"]]
+    if not ops:
+        return d, "none"
+    op = rng.choice(ops)
+    code = rng.choice(sorted(op["responses"]))
+    resp = op["responses"][code]
+    if not isinstance(resp, dict) or "$ref" in resp:
+        return d, "none"
+    sch = {"type": "object", "properties": {"a": {"type": "string", "default": "x", "example": "y"}}}
+    if not isinstance(resp.get("schema"), dict):
+        resp["schema"] = copy.deepcopy(sch)
+    name = code if rng.random() < 0.7 else rng.choice(WALK_WORDS)
+    params = op.setdefault("parameters", [])
+    if not isinstance(params, list):
+        return d, "none"
+    body = [p for p in params if isinstance(p, dict) and p.get("in") == "body"]
+    if body:
+        body[0]["name"] = name
+        if not isinstance(body[0].get("schema"), dict):
+            body[0]["schema"] = copy.deepcopy(sch)
+    else:
+        params.append({"name": name, "in": "body", "schema": copy.deepcopy(sch)})
+    return d, "body parameter named %r beside the response %r (both with schemas)" % (name, code)
+
+
 def rename_names(doc, rng):
     """rename a parameter / definition / property to a name from the collision-prone pool (dots, empty, ...)"""
     d = copy.deepcopy(doc)
